@@ -72,6 +72,7 @@ func newEngine(prog *ssa.Program) *Engine {
 	eng.registerIntrinsics()
 	eng.registerCrypto()
 	eng.registerThreads()
+	eng.registerSyncMap()
 	eng.registerNet()
 	eng.registerASN1()
 	eng.registerJSON()
